@@ -798,6 +798,8 @@ def _assignment_key(ctx):
     ctx.require(filer is not None and finder is not None,
                 'load_allocations / find_assignment', rule='C06.7')
 
+    _depth = [0]
+
     def key_forms(func):
         """Shapes of the keys under which func indexes self.assignments:
         the callee name for f(x), else the expression with its single free
@@ -805,6 +807,17 @@ def _assignment_key(ctx):
         forms = set()
         # on the source of the routine (the view would splice the key helper
         # in and hide that both sides call the same one)
+        # ... and of the private methods of the class it hands the work to
+        for call in K.calls(func.raw):
+            if isinstance(call.func, ast.Attribute) and \
+                    N.txt(call.func.value) == 'self' and \
+                    call.func.attr.startswith('_') and \
+                    func.cls is not None and _depth[0] < 2:
+                inner = ctx.index.find_method(func.cls, call.func.attr)
+                if inner is not None and inner is not func:
+                    _depth[0] += 1
+                    forms |= key_forms(inner)
+                    _depth[0] -= 1
         defs = {}
         for sub in K.walk_no_nested(func.raw):
             if isinstance(sub, ast.Assign) and len(sub.targets) == 1 and \
